@@ -60,12 +60,7 @@ pub fn simple(v: &Value, ctx: &Ctx) -> Result<SimpleVal, String> {
         "leaf" => {
             let atom = &v[1];
             match tag_of(atom) {
-                "v" => ctx
-                    .atoms
-                    .get(atom[1].as_str().unwrap())
-                    .cloned()
-                    .map(SimpleVal::P)
-                    .ok_or(format!("unbound atom {}", atom)),
+                "v" => ctx.atom(atom[1].as_str().unwrap()).map(SimpleVal::P).ok_or(format!("unbound atom {}", atom)),
                 "str" => Ok(SimpleVal::P(PV::Str(atom[1].as_str().unwrap().to_string()))),
                 "uint" => Ok(SimpleVal::P(PV::U64(atom[1].as_u64().unwrap()))),
                 "tkv" => Ok(SimpleVal::P(PV::Tagged(
@@ -152,8 +147,8 @@ impl<'a> Exec<'a> {
             "enc" => {
                 // honest ciphertext of the plaintext under the named key
                 let p = self.build(&e[4])?;
-                let k = self.keys.sym.get(e[2].as_str().unwrap_or("")).ok_or("key")?.clone();
-                p.elide_removing_target_with_action(&p, &ObscureAction::Encrypt(k))
+                let k = &self.keys.sym(e[2].as_str().unwrap_or(""));
+                p.elide_removing_target_with_action(&p, &ObscureAction::Encrypt(k.clone()))
             }
             "comp" => {
                 let p = self.build(&e[2])?;
@@ -279,7 +274,7 @@ impl<'a> Exec<'a> {
                     "elide" => ObscureAction::Elide,
                     "compress" => ObscureAction::Compress,
                     "encrypt" => {
-                        let k = self.keys.sym.get(act[1].as_str().unwrap()).ok_or("key")?;
+                        let k = &self.keys.sym(act[1].as_str().unwrap());
                         ObscureAction::Encrypt(k.clone())
                     }
                     _ => return Err(format!("action {}", act)),
@@ -329,26 +324,26 @@ impl<'a> Exec<'a> {
             "compress_subject" => res(reg(regs, a(0))?.compress_subject()),
             "uncompress_subject" => res(reg(regs, a(0))?.uncompress_subject()),
             "encrypt_subject" => {
-                let k = self.keys.sym.get(a(1).as_str().unwrap()).ok_or("key")?;
+                let k = &self.keys.sym(a(1).as_str().unwrap());
                 res(reg(regs, a(0))?.encrypt_subject(k))
             }
             "decrypt_subject" => {
-                let k = self.keys.sym.get(a(1).as_str().unwrap()).ok_or("key")?;
+                let k = &self.keys.sym(a(1).as_str().unwrap());
                 res(reg(regs, a(0))?.decrypt_subject(k))
             }
             "encrypt" => {
-                let k = self.keys.sym.get(a(1).as_str().unwrap()).ok_or("key")?;
+                let k = &self.keys.sym(a(1).as_str().unwrap());
                 Outcome::Env(reg(regs, a(0))?.encrypt(k))
             }
             "decrypt" => {
-                let k = self.keys.sym.get(a(1).as_str().unwrap()).ok_or("key")?;
+                let k = &self.keys.sym(a(1).as_str().unwrap());
                 res(reg(regs, a(0))?.decrypt(k))
             }
             "forge_encrypted" => {
                 // a key holder encrypts content P but declares the digest of another envelope
                 let p = reg(regs, a(0))?;
                 let d = reg(regs, a(1))?;
-                let k = self.keys.sym.get(a(2).as_str().unwrap()).ok_or("key")?;
+                let k = &self.keys.sym(a(2).as_str().unwrap());
                 let msg = k.encrypt_with_digest(p.tagged_cbor().to_cbor_data(), d.digest().into_owned(), None::<bc_components::Nonce>);
                 res(Envelope::try_from(msg))
             }
@@ -460,6 +455,264 @@ impl<'a> Exec<'a> {
                     Err(e) => return Err(format!("corrupt: container refuses: {}", e)),
                 }
             }
+
+            // ---- salt ----
+            "add_salt" => Outcome::Env(reg(regs, a(0))?.add_salt()),
+            "add_salt_with_len" => res(reg(regs, a(0))?.add_salt_with_len(a(1).as_u64().unwrap() as usize)),
+            "add_salt_in_range" => {
+                let (lo, hi) = (a(1).as_u64().unwrap() as usize, a(2).as_u64().unwrap() as usize);
+                res(reg(regs, a(0))?.add_salt_in_range(lo..=hi))
+            }
+            "add_assertion_salted" => {
+                let e = reg(regs, a(0))?;
+                let (p, o) = (simple(a(1), self.ctx)?, simple(a(2), self.ctx)?);
+                let salted = a(3).as_bool().ok_or("salted")?;
+                if var % 2 == 0 {
+                    Outcome::Env(e.add_assertion_salted(p, o, salted))
+                } else {
+                    let x = Envelope::new_assertion(p, o);
+                    res(e.add_optional_assertion_envelope_salted(Some(x), salted))
+                }
+            }
+            "add_assertion_envelope_salted" => {
+                let e = reg(regs, a(0))?;
+                let x = reg(regs, a(1))?.clone();
+                let salted = a(2).as_bool().ok_or("salted")?;
+                let all_ok = x.is_subject_assertion() || x.is_subject_obscured();
+                match (var % 2, all_ok) {
+                    (0, true) => Outcome::Env(e.add_assertions_salted(&[x], salted)),
+                    _ => res(e.add_assertion_envelope_salted(x, salted)),
+                }
+            }
+            // ---- signatures ----
+            "add_signature" => {
+                let e = reg(regs, a(0))?;
+                let sk = self.keys.signer(a(1).as_str().unwrap_or(""));
+                let meta_set = a(2).as_array().ok_or("meta")?;
+                if meta_set.is_empty() {
+                    match (var % 3, !sk.ssh) {
+                        (0, true) => Outcome::Env(e.add_signature(&sk.private)),
+                        (1, true) => Outcome::Env(e.add_signatures(&[&sk.private])),
+                        _ => Outcome::Env(e.add_signature_opt(&sk.private, sk.options(), None)),
+                    }
+                } else {
+                    let mut md = SignatureMetadata::new();
+                    for m in meta_set {
+                        let p = self.build(&m[1])?;
+                        let ob = self.build(&m[2])?;
+                        md = md.with_assertion(p, ob);
+                    }
+                    Outcome::Env(e.add_signature_opt(&sk.private, sk.options(), Some(md)))
+                }
+            }
+            "sign" => {
+                let e = reg(regs, a(0))?;
+                let sk = self.keys.signer(a(1).as_str().unwrap_or(""));
+                if !sk.ssh && var % 2 == 0 {
+                    Outcome::Env(e.sign(&sk.private))
+                } else {
+                    Outcome::Env(e.sign_opt(&sk.private, sk.options()))
+                }
+            }
+            "forge_signed" => {
+                use bc_components::Signer;
+                let e = reg(regs, a(0))?;
+                let kind = a(1).as_str().ok_or("kind")?;
+                let s1r = self.keys.signer(a(2).as_str().unwrap_or(""));
+                let s1 = &*s1r;
+                let s2r = self.keys.signer(a(3).as_str().unwrap_or(""));
+                let s2 = &*s2r;
+                let signed = known_values::SIGNED;
+                let sign = |k: &crate::project::SignerKey, msg: &[u8]| -> Result<Envelope, String> {
+                    k.private.sign_with_options(&msg, k.options()).map(Envelope::new).map_err(|e| e.to_string())
+                };
+                let subject_digest = e.subject().digest().data().to_vec();
+                let absent = self.ctx.digest(&serde_json::json!(["X", 0])).map_err(|e| e.0)?.to_vec();
+                let good = sign(s1, &subject_digest)?;
+                let wrapped = |inner: Envelope| inner.add_assertion(known_values::NOTE, "n").wrap_envelope();
+                let obj: Envelope = match kind {
+                    "other_subject" => sign(s1, &absent)?,
+                    "unsigned_wrapper" => wrapped(good),
+                    "foreign_wrapper" => {
+                        let w = wrapped(good);
+                        let outer = sign(s2, w.digest().data())?;
+                        w.add_assertion(signed, outer)
+                    }
+                    "two_outer" => {
+                        let w = wrapped(good);
+                        let o1 = sign(s1, w.digest().data())?;
+                        let o2 = sign(s2, w.digest().data())?;
+                        w.add_assertion(known_values::SIGNED, o1).add_assertion(known_values::SIGNED, o2)
+                    }
+                    "junk" => Envelope::new("junk"),
+                    "junk_outer" => wrapped(good).add_assertion(signed, "junk"),
+                    "inner_other" => {
+                        let w = wrapped(sign(s1, &absent)?);
+                        let outer = sign(s1, w.digest().data())?;
+                        w.add_assertion(signed, outer)
+                    }
+                    "decorated" => {
+                        let assertion = Envelope::new_assertion(known_values::SIGNED, good);
+                        return Ok(res(e.add_assertion_envelope_salted(assertion, true)));
+                    }
+                    _ => return Err(format!("forge kind {}", kind)),
+                };
+                Outcome::Env(e.add_assertion(known_values::SIGNED, obj))
+            }
+            // ---- recipients ----
+            "encrypt_subject_to_recipients" => {
+                use bc_components::Encrypter;
+                let e = reg(regs, a(0))?;
+                let mut held = vec![];
+                for r in a(1).as_array().ok_or("recipients")? {
+                    held.push(self.keys.recipient(r.as_str().unwrap_or("")));
+                }
+                let pubs: Vec<&dyn Encrypter> = held.iter().map(|h| &h.public as &dyn Encrypter).collect();
+                if pubs.len() == 1 && var % 2 == 0 {
+                    res(e.encrypt_subject_to_recipient(pubs[0]))
+                } else {
+                    res(e.encrypt_subject_to_recipients(&pubs))
+                }
+            }
+            "encrypt_to_recipient" => {
+                let e = reg(regs, a(0))?;
+                let rk = self.keys.recipient(a(1).as_str().unwrap_or(""));
+                Outcome::Env(e.encrypt_to_recipient(&rk.public))
+            }
+            "add_recipient" => {
+                let e = reg(regs, a(0))?;
+                let rk = self.keys.recipient(a(1).as_str().unwrap_or(""));
+                let k = &self.keys.sym(a(2).as_str().unwrap_or(""));
+                Outcome::Env(e.add_recipient(&rk.public, k))
+            }
+            "share_with" => {
+                // an existing recipient opens the content key and shares it with a further recipient
+                let e = reg(regs, a(0))?;
+                let r0 = self.keys.recipient(a(1).as_str().unwrap_or(""));
+                let r1 = self.keys.recipient(a(2).as_str().unwrap_or(""));
+                let sealed = e.recipients().map_err(|e| e.to_string())?;
+                let mut key = None;
+                for sm in sealed {
+                    if let Ok(p) = sm.decrypt(&r0.private) {
+                        key = Some(bc_components::SymmetricKey::from_tagged_cbor_data(p).map_err(|e| e.to_string())?);
+                        break;
+                    }
+                }
+                let key = key.ok_or("share_with: r0 cannot open")?;
+                Outcome::Env(e.add_recipient(&r1.public, &key))
+            }
+            "decrypt_subject_to_recipient" => {
+                let rk = self.keys.recipient(a(1).as_str().unwrap_or(""));
+                res(reg(regs, a(0))?.decrypt_subject_to_recipient(&rk.private))
+            }
+            "decrypt_to_recipient" => {
+                let rk = self.keys.recipient(a(1).as_str().unwrap_or(""));
+                res(reg(regs, a(0))?.decrypt_to_recipient(&rk.private))
+            }
+            "seal" => {
+                let e = reg(regs, a(0))?;
+                let sk = self.keys.signer(a(1).as_str().unwrap_or(""));
+                let rk = self.keys.recipient(a(2).as_str().unwrap_or(""));
+                if !sk.ssh && var % 2 == 0 {
+                    Outcome::Env(e.seal(&sk.private, &rk.public))
+                } else {
+                    Outcome::Env(e.seal_opt(&sk.private, &rk.public, sk.options()))
+                }
+            }
+            "unseal" => {
+                let e = reg(regs, a(0))?;
+                let sk = self.keys.signer(a(1).as_str().unwrap_or(""));
+                let rk = self.keys.recipient(a(2).as_str().unwrap_or(""));
+                res(e.unseal(&sk.public, &rk.private))
+            }
+            // ---- SSKR ----
+            "sskr_split_join" | "sskr_split_pick" => {
+                use bc_envelope::extension::sskr::{SSKRGroupSpec, SSKRSpec};
+                let e = reg(regs, a(0))?;
+                let k = &self.keys.sym(a(1).as_str().unwrap_or(""));
+                let pol = a(2);
+                let mut groups = vec![];
+                for g in pol[1].as_array().ok_or("policy")? {
+                    groups.push(SSKRGroupSpec::new(g[0].as_u64().unwrap() as usize, g[1].as_u64().unwrap() as usize).map_err(|e| format!("policy refused by the dependency: {}", e))?);
+                }
+                let spec = SSKRSpec::new(pol[0].as_u64().unwrap() as usize, groups).map_err(|e| format!("policy refused by the dependency: {}", e))?;
+                let shares: Vec<Vec<Envelope>> = e.sskr_split(&spec, k).map_err(|e| e.to_string())?;
+                if op == "sskr_split_pick" {
+                    let (g, m) = (a(3).as_u64().unwrap() as usize, a(4).as_u64().unwrap() as usize);
+                    self.ctx.splits.insert(a(5).to_string(), shares.clone());
+                    Outcome::Env(shares[g - 1][m - 1].clone())
+                } else {
+                    let mut chosen: Vec<&Envelope> = vec![];
+                    for x in a(3).as_array().ok_or("subset")? {
+                        let (g, m) = (x[0].as_u64().unwrap() as usize, x[1].as_u64().unwrap() as usize);
+                        chosen.push(&shares[g - 1][m - 1]);
+                    }
+                    // present the shares in a round dependent order
+                    if !chosen.is_empty() {
+                        let r = (var as usize) % chosen.len();
+                        chosen.rotate_left(r);
+                    }
+                    res(Envelope::sskr_join(&chosen))
+                }
+            }
+            "sskr_pick_more" => {
+                let shares = self.ctx.splits.get(&a(1).to_string()).ok_or("sskr_pick_more: split not cached")?;
+                let (g, m) = (a(2).as_u64().unwrap() as usize, a(3).as_u64().unwrap() as usize);
+                Outcome::Env(shares[g - 1][m - 1].clone())
+            }
+            "sskr_join" => {
+                let mut envs: Vec<&Envelope> = vec![];
+                for r in a(0).as_array().ok_or("regs")? {
+                    envs.push(reg(regs, r)?);
+                }
+                res(Envelope::sskr_join(&envs))
+            }
+            // ---- proofs ----
+            "proof_contains_set" => {
+                let e = reg(regs, a(0))?;
+                let ds = self.digests(a(1))?;
+                let p = if ds.len() == 1 && var % 2 == 0 {
+                    e.proof_contains_target(&ds[0])
+                } else {
+                    e.proof_contains_set(&ds.iter().cloned().collect())
+                };
+                match p {
+                    Some(x) => Outcome::Env(x),
+                    None => Outcome::Err("none".into()),
+                }
+            }
+            // ---- types, attachments ----
+            "add_type" => {
+                let e = reg(regs, a(0))?;
+                Outcome::Env(e.add_type(simple(a(1), self.ctx)?))
+            }
+            "add_attachment" => {
+                let e = reg(regs, a(0))?;
+                let payload = reg(regs, a(1))?.clone();
+                let vendor = a(2).as_str().ok_or("vendor")?;
+                let conf = a(3).as_str().filter(|c| *c != "~none~");
+                match var % 3 {
+                    0 => Outcome::Env(e.add_attachment(payload, vendor, conf)),
+                    1 => res(e.add_assertion_envelope(Envelope::new_attachment(payload, vendor, conf))),
+                    _ => res(e.add_assertion_envelope(bc_envelope::Assertion::new_attachment(payload, vendor, conf))),
+                }
+            }
+            "add_bad_attachment" => {
+                let e = reg(regs, a(0))?;
+                let payload = reg(regs, a(1))?.clone();
+                let kind = a(2).as_str().ok_or("kind")?;
+                let good_obj = || payload.clone().wrap_envelope().add_assertion(known_values::VENDOR, "v1").add_assertion(known_values::CONFORMS_TO, "c1");
+                let obj = match kind {
+                    "no_vendor" => payload.clone().wrap_envelope().add_assertion(known_values::CONFORMS_TO, "c1"),
+                    "two_vendors" => good_obj().add_assertion(known_values::VENDOR, "v2"),
+                    "no_wrap" => payload.clone().add_assertion(known_values::VENDOR, "v1"),
+                    "extra" => good_obj().add_assertion(known_values::NOTE, "n"),
+                    "two_conforms" => good_obj().add_assertion(known_values::CONFORMS_TO, "c2"),
+                    "vendor_not_string" => payload.clone().wrap_envelope().add_assertion(known_values::VENDOR, known_values::IS_A),
+                    _ => return Err(format!("bad attachment kind {}", kind)),
+                };
+                res(e.add_assertion_envelope(Envelope::new_assertion(known_values::ATTACHMENT, obj)))
+            }
             "decode_wire" => {
                 let bytes = self.ctx.wire(a(0)).map_err(|e| e.0)?;
                 match var % 2 {
@@ -487,7 +740,7 @@ impl<'a> Exec<'a> {
                     }
                 }
             }
-            o if o.starts_with("obs_") => match crate::obs::run_obs(o, step, regs, self.ctx, var)? {
+            o if o.starts_with("obs_") => match crate::obs::run_obs(o, step, regs, self.ctx, self.keys, var)? {
                 Some(v) => Outcome::Obs(v),
                 None => Outcome::Unsupported(format!("unknown observation {}", o)),
             },
